@@ -59,6 +59,50 @@ Proof.
   intros HU' HI'. rewrite (src_sparse_jaccard_eq RNum U I a b HU' HI'). rewrite (C13_jaccard a b n Ca Cb Ba Bb).
   destruct (C13_dense_is_C12 da db Lab) as (_ & _ & _ & _ & _ & _ & _ & E & _). fold da db. rewrite E. rewrite (src_jaccard_eq da db Lab). reflexivity.
 Qed.
+(* the rest of the binary family (session 4): same chain, for the metrics that take the row length n and the two that do not *)
+Ltac dense_side L := fold da db; rewrite L by exact Lab; pose proof (C13_dense_is_C12 da db Lab) as D; decompose [and] D; assumption.
+Corollary C13_src_matching (I : list Z -> list Z -> list Z) : (0 < n)%nat ->
+  zlen (U (zi RNum a) (zi RNum b)) = n_union RNum a b -> zlen (I (zi RNum a) (zi RNum b)) = n_inter RNum a b ->
+  src_sparse_matching RNum U I (zi RNum a) (vals RNum a) (zi RNum b) (vals RNum b) (Z.of_nat n) = src_matching RNum da db.
+Proof.
+  intros Hn HU' HI'. rewrite (src_sparse_matching_eq RNum U I a b HU' HI' n). rewrite (C13_matching a b n Hn Ca Cb Ba Bb).
+  dense_side src_matching_eq.
+Qed.
+Corollary C13_src_kulsinski (I : list Z -> list Z -> list Z) : (0 < n)%nat ->
+  zlen (U (zi RNum a) (zi RNum b)) = n_union RNum a b -> zlen (I (zi RNum a) (zi RNum b)) = n_inter RNum a b ->
+  src_sparse_kulsinski RNum U I (zi RNum a) (vals RNum a) (zi RNum b) (vals RNum b) (Z.of_nat n) = src_kulsinski RNum da db.
+Proof.
+  intros Hn HU' HI'. rewrite (src_sparse_kulsinski_eq RNum U I a b HU' HI' n). rewrite (C13_kulsinski a b n Hn Ca Cb Ba Bb).
+  dense_side src_kulsinski_eq.
+Qed.
+Corollary C13_src_rogers_tanimoto (I : list Z -> list Z -> list Z) : (0 < n)%nat ->
+  zlen (U (zi RNum a) (zi RNum b)) = n_union RNum a b -> zlen (I (zi RNum a) (zi RNum b)) = n_inter RNum a b ->
+  src_sparse_rogers_tanimoto RNum U I (zi RNum a) (vals RNum a) (zi RNum b) (vals RNum b) (Z.of_nat n) = src_rogers_tanimoto RNum da db.
+Proof.
+  intros Hn HU' HI'. rewrite (src_sparse_rogers_tanimoto_eq RNum U I a b HU' HI' n). rewrite (C13_rogerstanimoto a b n Hn Ca Cb Ba Bb).
+  dense_side src_rogers_tanimoto_eq.
+Qed.
+Corollary C13_src_sokal_michener (I : list Z -> list Z -> list Z) : (0 < n)%nat ->
+  zlen (U (zi RNum a) (zi RNum b)) = n_union RNum a b -> zlen (I (zi RNum a) (zi RNum b)) = n_inter RNum a b ->
+  src_sparse_sokal_michener RNum U I (zi RNum a) (vals RNum a) (zi RNum b) (vals RNum b) (Z.of_nat n) = src_sokal_michener RNum da db.
+Proof.
+  intros Hn HU' HI'. rewrite (src_sparse_sokal_michener_eq RNum U I a b HU' HI' n). rewrite (C13_sokalmichener a b n Hn Ca Cb Ba Bb).
+  dense_side src_sokal_michener_eq.
+Qed.
+Corollary C13_src_dice (I : list Z -> list Z -> list Z) :
+  zlen (U (zi RNum a) (zi RNum b)) = n_union RNum a b -> zlen (I (zi RNum a) (zi RNum b)) = n_inter RNum a b ->
+  src_sparse_dice RNum U I (zi RNum a) (vals RNum a) (zi RNum b) (vals RNum b) = src_dice RNum da db.
+Proof.
+  intros HU' HI'. rewrite (src_sparse_dice_eq U I a b HU' HI'). rewrite (C13_dice a b n Ca Cb Ba Bb).
+  dense_side src_dice_eq.
+Qed.
+Corollary C13_src_sokal_sneath (I : list Z -> list Z -> list Z) :
+  zlen (U (zi RNum a) (zi RNum b)) = n_union RNum a b -> zlen (I (zi RNum a) (zi RNum b)) = n_inter RNum a b ->
+  src_sparse_sokal_sneath RNum U I (zi RNum a) (vals RNum a) (zi RNum b) (vals RNum b) = src_sokal_sneath RNum da db.
+Proof.
+  intros HU' HI'. rewrite (src_sparse_sokal_sneath_eq U I a b HU' HI'). rewrite (C13_sokalsneath a b n Ca Cb Ba Bb).
+  dense_side src_sokal_sneath_eq.
+Qed.
 (* cosine: the product row is written into the buffer arr_intersect returns (only its length matters) *)
 Corollary C13_src_cosine (I : list Z -> list Z -> list Z) :
   (length (arr_intersect (inds RNum a) (inds RNum b)) <= length (I (zi RNum a) (zi RNum b)))%nat ->
